@@ -8,13 +8,41 @@ then re-read in another order, re-read after discarding all caches, and read
 from a fresh instance that received the same final user values in another
 order.  TLC validates every observation against the from-scratch evaluation
 of spec/KEval.tla and evaluates the equalities between the observations."""
+import os
 import random
 
 from .. import histcheck, ktree, lattice
 from ..common import MachineryFailure
 
 
-def alphabet(item, rng):
+def tool_written(run, item, vars_, info):
+    """Two files the real tool writes for this program (all-last-candidates, all-first-candidates), as lines."""
+    from .. import evalcheck, kc, storecheck
+
+    text = item.get("text") or ktree.render(item["prog"])
+    item["text"] = text
+    out = []
+    for pick in (-1, 0):
+        asg = {}
+        for v in vars_:
+            cands = [c for c in v["cands"] if c != ktree.NOVAL]
+            asg[v["n"]] = cands[pick] if cands else ktree.NOVAL
+        try:
+            k = kc.build(text, run.scratch)
+            evalcheck.apply_assignment(k, info, vars_, asg)
+            p = os.path.join(run.scratch, "toolfile")
+            k.write_config(p, save_old=False)
+            with open(p) as f:
+                lines = storecheck.parse_sdkconfig(f.read(), info)
+            os.unlink(p)
+            kc.reset_report(k)
+        except Exception:
+            continue  # a writer that raises is C02's / C06's subject
+        out.append([{"n": n, "v": v, "t": info[n]["type"], "d": bool(d)} for n, v, d in lines if n in info])
+    return out
+
+
+def alphabet(item, rng, run=None):
     prog = item["prog"]
     info = ktree.sym_info(prog)
     names = ktree.sym_names(prog)
@@ -49,6 +77,11 @@ def alphabet(item, rng):
         files.append(lines)
         acts.append({"a": "load", "f": 1, "replace": False})
         acts.append({"a": "load", "f": 1, "replace": True})
+    # files the tool itself wrote for this program (default-marked entries included), loaded with replace
+    if run is not None:
+        for tw in tool_written(run, item, vars_, info):
+            files.append(tw)
+            acts.append({"a": "load", "f": len(files), "replace": True})
     item["acts"], item["files"] = acts, files
     return item
 
@@ -64,7 +97,7 @@ def main(run):
     else:
         gen = ktree.generate(run.seed + 300, 400)
         maxlen, cap, nwalk = 3, 3000, 80
-    sess = [alphabet(dict(it), rng) for it in lat + gen]
+    sess = [alphabet(dict(it), rng, run) for it in lat + gen]
     total = 0
     nlong = 0
     bad = set()
